@@ -395,10 +395,121 @@ def _zl(bs):
     return '[' + ';'.join(str(b) for b in bs) + ']'
 
 
+def _z(v):
+    v = int(v)
+    return '(%d)' % v if v < 0 else '%d' % v
+
+
+def _nl(bs):
+    return '[' + '; '.join('%d' % b for b in bs) + ']%N'
+
+
+def _zlist(vs):
+    return '[' + '; '.join(_z(v) for v in vs) + ']'
+
+
+def _bool(x):
+    return 'true' if x in ('1', 1, True) else 'false'
+
+
+def _op_term(op):
+    """second, independent reading of a script operation (the first is parse_op in ocaml/drv.ml)"""
+    f = op.split(':')
+    k = f[0]
+    hx_ = lambda h: _nl(unhx(h)) if h and h != '-' else '[]%N'
+    if k in ('PI32', 'PU32', 'PI64', 'PU64', 'PBOOL', 'PCHOICE', 'PCHARS', 'PBLOCK', 'PD', 'PF', 'PNUM'):
+        return '%s %s' % (k, _bool(f[1]))
+    if k == 'PTEXT':
+        return 'PTEXT %s %s' % (_z(f[1]), _bool(f[2]))
+    if k in ('RI32', 'RI64', 'RI8', 'RI16', 'RHDR', 'PUSH', 'RD', 'RF'):
+        return '%s %s' % (k, _z(f[1]))
+    if k in ('RU32', 'RU64', 'RU8', 'RU16', 'NUMS'):
+        return '%s %s %s' % (k, _z(f[1]), _z(f[2]))
+    if k == 'RBOOL':
+        return 'RBOOL %s' % _bool(f[1])
+    if k in ('RTEXT', 'RCHARS', 'RBLOCK', 'RDATA', 'RMNEM', 'ISCMD'):
+        return '%s %s' % (k, hx_(f[1] if len(f) > 1 else ''))
+    if k in ('SYSTERR', 'RETERR'):
+        return k
+    if k == 'RARR':
+        size = int(f[1])
+        raw = unhx(f[3]) if len(f) > 3 and f[3] != '-' else b''
+        vals = [int.from_bytes(raw[i:i + size], 'little') for i in range(0, len(raw) - size + 1, size)]
+        return 'RARR %d %s %s' % (size, _z(f[2]), _zlist(vals))
+    if k == 'PARR':
+        ty = {'i32': 13, 'u32': 14, 'i64': 15, 'u64': 16, 'd': 17}.get(f[1], 18)
+        return 'PARR %d %s %s' % (ty, _z(f[2]), _bool(f[3]))
+    if k == 'PEXPRN':
+        return 'PEXPRN %s %s' % (_z(f[1]), _bool(f[2]))
+    if k == 'PEXPRC':
+        return 'PEXPRC %s %s %s' % (_z(f[1]), _z(f[2]), _bool(f[3]))
+    return None
+
+
+def _scenario_term(case, out):
+    """Coq proposition: evaluating the scenario with the model gives the events, buffer and queue the driver printed"""
+    parts = case.split('|')
+    head = parts[0].split()
+    cap, qcap = int(head[1]), int(head[2])
+    table, ins = [], []
+    for p in parts[1:]:
+        f = p.split(' ')
+        if f[0] == 'C':
+            ops = []
+            if len(f) > 3 and f[3] != '-':
+                for o_ in f[3].split(';'):
+                    t = _op_term(o_)
+                    if t is None:
+                        return None
+                    ops.append(t)
+            table.append('(%s, %s, [%s])' % (_nl(unhx(f[2])) if f[2] != '-' else '[]%N', _z(f[1]), '; '.join(ops)))
+        elif f[0] == 'I':
+            ins.append(_nl(unhx(f[1])) if f[1] != '-' else '[]%N')
+    toks = out.split(' ')[1:]
+    evs, mem, queue, stage = [], None, [], 0
+    for t in toks:
+        if t == '':
+            continue
+        if stage == 0:
+            if t[0] == 'H':
+                a, b = t[1:].split(':', 1)
+                evs.append('EvH %s %s' % (_z(a), _nl(unhx(b)) if b else '[]%N'))
+            elif t[0] == 'P':
+                k, ok, v = t[1:].split(':', 2)
+                v = v.split(';')[0]
+                evs.append('EvP %s %s %s' % (_z(k), _bool(ok), _zlist([x for x in v.split(',') if x != ''])))
+            elif t[0] == 'W':
+                evs.append('EvW %s' % _nl(unhx(t[1:])))
+            elif t == 'F':
+                evs.append('EvF')
+            elif t[0] == 'E':
+                evs.append('EvE %s' % _z(t[1:]))
+            elif t[0] == 'R':
+                evs.append('EvR %s' % _bool(t[1:]))
+            elif t[0] == 'N':
+                ok, v = t[1:].split(':', 1)
+                evs.append('EvNum %s %s' % (_bool(ok), _zlist([x for x in v.split(',') if x != ''])))
+            elif t[0] == 'I':
+                evs.append('EvI %s' % _bool(t[1:]))
+            elif t[0] == 'B':
+                mem = _nl(unhx(t[1:])) if len(t) > 1 else '[]%N'
+                stage = 1
+            else:
+                return None
+        elif t[0] == 'Q':
+            q = t[1:].split(':')
+            queue.append('(%s, %s)' % (_z(q[0]), ('Some %s' % (_nl(unhx(q[1])) if q[1] else '[]%N')) if len(q) > 1 else 'None'))
+    if mem is None:
+        return None
+    return ('Replay.observe (Replay.run_inputs (Replay.fresh %d %d [%s]) [%s]) = ([%s], %s, [%s])'
+            % (cap, qcap, '; '.join(table), '; '.join(ins), '; '.join(evs), mem, '; '.join(queue)))
+
+
 def coq_crosscheck(tag, cases, model_outs, limit=60):
     """Re-evaluate a sample of cases with vm_compute inside Coq and require the results the extracted OCaml code
-    printed (keeps extraction and the OCaml driver honest).  Supports I2S, MATCH, RERR lines.  Returns (n, error or '')."""
+    printed (keeps extraction and the OCaml driver honest).  Supports I2S, MATCH, RERR lines and scenario (S) lines without L inputs.  Returns (n, error or '')."""
     ex = []
+    sc = []
     step = max(1, len(cases) // limit)
     for c, o in list(zip(cases, model_outs))[::step]:
         f, g = c.split(' '), o.split(' ')
@@ -419,13 +530,23 @@ def coq_crosscheck(tag, cases, model_outs, limit=60):
         elif f[0] == 'RERR' and g[0] == 'RERR' and g[1].startswith('W'):
             info = 'None' if f[2] == '-' else '(Some %s)' % _zl(unhx(f[2]))
             ex.append('FmtModel.result_error (%d) (Glue.descz (%d)) %s Generated.gen_desc_max = %s' % (int(f[1]), int(f[1]), info, _zl(unhx(g[1][1:]))))
+        elif f[0] == 'S' and g[0].startswith('S') and not any(p.startswith('L ') for p in c.split('|')):
+            t = _scenario_term(c, o)
+            if t:
+                sc.append(t)
+    sc = sc[:: max(1, len(sc) // 24)][:24]
+    ex += sc
     if not ex:
         return 0, ''
+    if sc:
+        res, log = coq_build(['Replay.vo'])
+        if not all(res.values()):
+            return len(ex), 'coq/Replay.v does not build: ' + log[-400:]
     d = os.path.join(BUILD, 'stmt')
     os.makedirs(d, exist_ok=True)
     fn = os.path.join(d, 'Cross_%s.v' % tag)
     with open(fn, 'w') as fh:
-        fh.write('From Coq Require Import Bool List NArith ZArith.\nFrom M Require FmtModel MatchModel Glue Generated.\nImport ListNotations.\nOpen Scope Z_scope.\n')
+        fh.write('From Coq Require Import Bool List NArith ZArith.\nFrom M Require FmtModel MatchModel Glue Generated Replay.\nFrom M Require Import ParserModel.\nImport ListNotations.\nOpen Scope Z_scope.\n')
         for i, e in enumerate(ex):
             fh.write('Example x%d : %s.\nProof. vm_compute. reflexivity. Qed.\n' % (i, e))
     rc, out, err, _ = sh(['coqc', '-Q', COQ, 'M', fn], 600, cwd=d)
